@@ -92,8 +92,9 @@ NextLogEncode ==
         vec' = Ev("log_encode", [inst |-> inst, vid |-> 4])
   \/ \E w \in {1, 2, 5} : vec' = Ev("seq", [inst |-> EncInst("integer", B(R(0), R(w))),
                                           ops |-> << [op |-> "log_encode", vid |-> 4], [op |-> "log_encode", vid |-> 4] >>])
-  \/ \E bad \in {"unknown", "continuous", "binary", "nobound", "inf_hi", "inf_lo", "inf_both", "empty"} :
+  \/ \E bad \in {"unknown", "continuous", "binary", "nobound", "inf_hi", "inf_lo", "inf_both", "empty", "semi_integer", "semi_continuous", "unspecified"} :
         vec' = Ev("log_encode", [inst |-> CASE bad = "continuous" -> EncInst("continuous", B(R(0), R(3)))
+                                            [] bad \in {"semi_integer", "semi_continuous", "unspecified"} -> EncInst(bad, B(R(2), R(5)))
                                             [] bad = "binary" -> EncInst("binary", B(R(0), R(1)))
                                             [] bad = "nobound" -> EncInst("integer", <<>>)
                                             [] bad = "inf_hi" -> EncInst("integer", B(R(0), PInf))
@@ -119,6 +120,15 @@ TolOps == { [op |-> "relax", cid |-> c, reason |-> "why", rparams |-> <<>>] : c 
 TolEval(k) == [op |-> "evaluate", cid |-> 0, reason |-> "", rparams |-> <<>>, st |-> << <<1, G(k)>>, <<2, <<1,2>> >>, <<3, R(1)>> >>]
 NextHistoriesTol == \E n \in 0..2 : \E s \in [1..n -> TolOps] : \E k \in {-68, -67, -6, 6, 67, 68} :
     vec' = Ev("seq", [inst |-> TolInst, ops |-> [ i \in 1..n |-> WithSt(s[i]) ] \o << TolEval(k) >>])
+\* a state that omits a variable which only ONE constraint uses is rejected whether that constraint is active or removed
+HInstP == Inst("min", << V(1, "integer", B(R(0), R(2))), V(2, "binary", <<>>), V(3, "integer", B(R(0), R(2))) >>, L(<< T(1, R(1)) >>, Zero),
+               << C(10, "le", L(<< T(1, R(1)), T(3, R(1)) >>, R(-2))), C(11, "le", L(<< T(1, R(1)), T(2, R(1)) >>, R(-3))) >>, <<>>, <<>>)
+NextHistoriesPartial == \E n \in 0..2 : \E s \in [1..n -> { [op |-> "relax", cid |-> 10, reason |-> "why", rparams |-> <<>>], [op |-> "restore", cid |-> 10, reason |-> "", rparams |-> <<>>],
+                                                        [op |-> "relax", cid |-> 11, reason |-> "why", rparams |-> <<>>] }] :
+    \E withX3 \in BOOLEAN :
+    vec' = Ev("seq", [inst |-> HInstP, ops |-> [ i \in 1..n |-> WithSt(s[i]) ] \o
+              << [op |-> "evaluate", cid |-> 0, reason |-> "", rparams |-> <<>>,
+                  st |-> IF withX3 THEN << <<1, R(1)>>, <<2, R(1)>>, <<3, R(2)>> >> ELSE << <<1, R(1)>>, <<2, R(1)>> >>] >>])
 \* ---- C06 ----------------------------------------------------------------------------------------------------------
 SInst == Inst("min", << V(1, "integer", B(R(0), R(3))), V(2, "binary", <<>>), V(5, "continuous", B(R(-1), PInf)) >>, L(<< T(1, R(1)), T(2, R(-1)) >>, Zero),
               << C(10, "le", L(<< T(1, R(1)), T(2, R(1)) >>, R(-2))) >>, << Rm(C(12, "eq", L(<< T(1, R(1)) >>, R(-1))), "r0") >>, <<>>)
@@ -137,7 +147,9 @@ NextSamplesHelpers == \E n \in 1..3 : \E asg \in [1..n -> 1..3] :
     vec' = Ev("samples_helpers", [adds |-> [ i \in 1..n |-> << <<4, 0, 9>>[i], SStates[asg[i]] >> ]])
 \* ---- C15: all small sample sets in both layouts -------------------------------------------------------------------------
 Pairs(f) == [ k \in DOMAIN SortSeq(SetToSeq(DOMAIN f), LAMBDA x, y : x < y) |-> LET s == SortSeq(SetToSeq(DOMAIN f), LAMBDA x, y : x < y)[k] IN <<s, f[s]>> ]
-NextBest == \E S \in (SUBSET {0, 3, 7}) \ {{}} : \E objs \in [S -> {R(0), R(1)}], rel \in [S -> BOOLEAN], sense \in {"min", "max"}, legacy \in BOOLEAN, bytes \in BOOLEAN :
+\* objective values: small, and large ones one unit apart (1e-7 relative): "no other sample beats it" is exact, not approximate
+BestVals == { {R(0), R(1)}, {R(10000000), R(10000001)} }
+NextBest == \E S \in (SUBSET {0, 3, 7}) \ {{}} : \E VS \in BestVals : \E objs \in [S -> VS], rel \in [S -> BOOLEAN], sense \in {"min", "max"}, legacy \in BOOLEAN, bytes \in BOOLEAN :
               \E all \in { a \in [S -> BOOLEAN] : \A s \in S : a[s] => rel[s] } :
     \E groupedSv \in BOOLEAN :
     LET single == [ k \in DOMAIN Pairs(objs) |-> [value |-> Pairs(objs)[k][2], ids |-> << Pairs(objs)[k][1] >>] ]
@@ -204,7 +216,8 @@ PenInsts == { Inst(s, << V(1, "integer", B(R(0), R(2))), V(2, "binary", <<>>), V
               s \in {"min", "max"},
               cons \in { <<>>, << C(10, "le", L(<< T(1, R(1)), T(2, R(1)) >>, R(-2))) >>,
                          << C(3, "eq", Q(<<1>>, <<2>>, <<R(1)>>, <<>>)), [C(20, "le", K(R(2))) EXCEPT !.f = <<>>], C(5, "le", K(<<1,2>>)) >> },
-              rem \in { <<>>, << Rm(C(12, "le", L(<< T(7, R(1)) >>, R(-1))), "r0") >> } }
+              rem \in { <<>>, << Rm(C(12, "le", L(<< T(7, R(1)) >>, R(-1))), "r0") >>,
+                         << Rm(C(12, "le", L(<< T(7, R(1)) >>, R(-1))), "penalty_method"), Rm(C(13, "eq", L(<< T(1, R(1)) >>, R(-1))), "uniform_penalty_method") >> } }
 NextPenalty == \/ \E i \in PenInsts, name \in {"penalty", "uniform_penalty", "to_parametric"} : vec' = Ev(name, [inst |-> i])
                \* an instance that records the parameter values it was instantiated with converts back with NO declared parameters
                \/ \E i \in PenInsts, pv \in { << <<>> >>, << << <<50, R(2)>>, <<51, <<1,2>> >> >> >> } :
@@ -237,7 +250,7 @@ Step(A) == phase = 0 /\ phase' = 1 /\ A
 Init == vec = <<>> /\ phase = 0
 DoEvaluate == Step(NextTol \/ NextTolExact \/ NextIrrelevant \/ NextBinaryBound \/ NextDeps)
 DoLogEncode == Step(NextLogEncode)
-DoHistories == Step(NextHistories \/ NextHistoriesTol)
+DoHistories == Step(NextHistories \/ NextHistoriesTol \/ NextHistoriesPartial)
 DoSamples == Step(NextSamples \/ NextTolExact \/ NextSamplesHelpers)
 DoBest == Step(NextBest \/ NextAsMin)
 DoQubo == Step(NextQubo)
